@@ -1,7 +1,7 @@
 //! Observation support for generated bridge crates (E2). Hand-written, copied verbatim.
 #![allow(unused, static_mut_refs)]
 
-pub const LOGN: usize = 40;
+pub const LOGN: usize = 72;
 
 #[derive(Clone, Copy)]
 pub struct Log {
@@ -58,7 +58,7 @@ pub fn note_written(b: &[u8]) {
 /// memcpy from a pointer that may point to one of several string literals of different sizes (bytes after the first read 0xFF).
 pub static MULTIBYTE: [u8; 4] = [0x61, 0x62, 0xC3, 0xA9];
 
-pub const NSEED: usize = 16;
+pub const NSEED: usize = 48;
 pub static mut SEED: [u64; NSEED] = [0; NSEED];
 pub static mut SEED_I: usize = 0;
 
